@@ -3,6 +3,7 @@
 package cl
 
 import (
+	"fmt"
 	"math/big"
 
 	"github.com/ohler55/slip"
@@ -106,19 +107,19 @@ func byteSpecArg(s *slip.Scope, arg slip.Object, depth int) (size, pos int) {
 		slip.TypePanic(s, depth, "bytespec", arg, "cons")
 	}
 	var num slip.Fixnum
-	if num, ok = spec[0].(slip.Fixnum); ok && 0 <= num {
+	if num, ok = spec[0].(slip.Fixnum); ok && 0 <= num && num <= maxIntegerBits {
 		size = int(num)
 	} else {
-		slip.TypePanic(s, depth, "size", spec[0], "non-negative fixnum")
+		slip.TypePanic(s, depth, "size", spec[0], fmt.Sprintf("non-negative fixnum not greater than %d", maxIntegerBits))
 	}
 	var tail slip.Tail
 	if tail, ok = spec[1].(slip.Tail); !ok {
 		slip.TypePanic(s, depth, "bytespec", arg, "cons")
 	}
-	if num, ok = tail.Value.(slip.Fixnum); ok && 0 <= num {
+	if num, ok = tail.Value.(slip.Fixnum); ok && 0 <= num && num <= maxIntegerBits {
 		pos = int(num)
 	} else {
-		slip.TypePanic(s, depth, "position", tail.Value, "non-negative fixnum")
+		slip.TypePanic(s, depth, "position", tail.Value, fmt.Sprintf("non-negative fixnum not greater than %d", maxIntegerBits))
 	}
 	return
 }
